@@ -23,7 +23,7 @@ func init() {
 		Assumptions: []string{"distance tolerance 1e-13*max(1,M) (about 450 ulps of the largest ordinate; the statement says a few ulps, the largest error observed on the unchanged tree is below 2 ulps), envelope bound slack 1e-12*M, triangle slack 3e-9*M — fixed in DESIGN.md before the check existed",
 			"near-degenerate pairs (clearance < 1e-9*M lattice / 1e-6*M general position) are excluded and counted"},
 		MinNontrivial:    300,
-		RequiredMonitors: []string{"intersects-exact", "intersects-sym", "disjoint", "intersection-empty", "dist-defined", "dist-zero", "dist-exact", "dist-sym", "dist-env", "dist-triangle"},
+		RequiredMonitors: []string{"intersects-exact", "intersects-sym", "disjoint", "intersection-empty", "dist-defined", "dist-zero", "dist-exact", "dist-sym", "dist-env", "dist-triangle", "payload-blind"},
 		Run:              runAll,
 	})
 }
